@@ -574,7 +574,7 @@ pub fn random_session(rng: &mut Rng, mutate: bool) -> (Vec<String>, Vec<MCall>, 
                 break;
             }
             let i = rng.below(calls.len());
-            match rng.below(8) {
+            match rng.below(10) {
                 0 => {
                     calls.remove(i);
                 }
@@ -617,6 +617,18 @@ pub fn random_session(rng: &mut Rng, mutate: bool) -> (Vec<String>, Vec<MCall>, 
                 6 => {
                     let j = rng.below(names.len());
                     names[j] = s(*rng.pick(&["a", "b", "", "x,y"]));
+                }
+                8 | 9 => {
+                    // a model parameter that no function uses (and an initial guess that still has the
+                    // right length): the only defect is the unused parameter
+                    let extra = format!("u{}", names.len());
+                    let j = rng.below(names.len() + 1);
+                    names.insert(j, extra);
+                    for c in calls.iter_mut() {
+                        if let MCall::Init(v) = c {
+                            v.push(2);
+                        }
+                    }
                 }
                 _ => {
                     calls.insert(
